@@ -7,7 +7,9 @@ pub mod common;
 pub mod c03;
 pub mod c04;
 pub mod c06;
+pub mod c08;
 pub mod c09;
+pub mod c16;
 pub mod c17;
 pub mod c19;
 
@@ -64,7 +66,7 @@ pub trait Property: Sync + Send {
 }
 
 pub fn all() -> Vec<Box<dyn Property>> {
-    vec![Box::new(c03::C03), Box::new(c04::C04), Box::new(c06::C06), Box::new(c09::C09), Box::new(c17::C17), Box::new(c19::C19)]
+    vec![Box::new(c03::C03), Box::new(c04::C04), Box::new(c06::C06), Box::new(c08::C08), Box::new(c09::C09), Box::new(c16::C16), Box::new(c17::C17), Box::new(c19::C19)]
 }
 
 pub fn get(id: &str) -> Option<Box<dyn Property>> {
